@@ -10,6 +10,8 @@ VIEWS_EXH = {"name": "views-exh", "suite": "views-exh", "quick": ["--universe", 
 API = {"name": "api", "suite": "api", "quick": ["--count", 3000], "thorough": ["--count", 100000]}
 FLOAT = {"name": "float", "suite": "float", "quick": ["--count", 3000], "thorough": ["--count", 60000]}
 FLOAT_EXH = {"name": "float-exh", "suite": "float", "quick": ["--mode", "exh", "--universe", 4], "thorough": ["--mode", "exh", "--universe", 6]}
+FLOAT_ENGINE = {"name": "float-engine", "suite": "float", "quick": ["--mode", "engine", "--count", 3000], "thorough": ["--mode", "engine", "--count", 60000]}
+FLOAT_ENGINE_EXH = {"name": "float-engine-exh", "suite": "float", "quick": ["--mode", "eng-exh", "--universe", 6], "thorough": ["--mode", "eng-exh", "--universe", 10]}
 FLOAT_ASSUME = [
     "float theorems are stated over exact rationals (Num instance Rat) for the same definitions that the driver runs over Float: IEEE-754 rounding, NaN and infinities are outside the theorems; the correspondence compares bit patterns of every f64 result",
 ]
@@ -28,8 +30,8 @@ CHECKS = {
     "C05": {"suites": [PRUNE, PRUNE_EXH, ENGINE], "assumptions": INT_ASSUME, "exhaustive_in_thorough": True},
     "C12": {"suites": [VIEWS0, PRUNE, FLOAT, FLOAT_EXH], "lean_modules": ["SelenModel.Props.C12", "SelenModel.Props.C12Float"],
             "assumptions": INT_ASSUME + FLOAT_ASSUME},
-    "C06": {"suites": [FLOAT, API], "assumptions": FLOAT_ASSUME + ["the theorems are about the float/int linear propagators and the float arms of try_set_min/max (Model/FloatCore.lean); the API-level stream (#flapi lines, witness-constructed models through Model) is an oracle on the implementation only"]},
-    "C07": {"suites": [FLOAT], "assumptions": FLOAT_ASSUME + ["witness-constructed models: every inequality holds at the witness with margin >= max|c_i|*step_i, equalities hold exactly at grid points (the hypothesis of C07_floatlin_sound_margin)"]},
+    "C06": {"suites": [FLOAT, FLOAT_ENGINE, FLOAT_ENGINE_EXH, API], "assumptions": FLOAT_ASSUME + ["the theorems are about the float/int linear propagators and the float arms of try_set_min/max (Model/FloatCore.lean); the API-level stream (#flapi lines, witness-constructed models through Model) is an oracle on the implementation only"]},
+    "C07": {"suites": [FLOAT, FLOAT_ENGINE, FLOAT_ENGINE_EXH], "assumptions": FLOAT_ASSUME + ["witness-constructed models: every inequality holds at the witness with margin >= max|c_i|*step_i, equalities hold exactly at grid points (the hypothesis of C07_floatlin_sound_margin)"]},
     "C16": {"suites": [{"name": "determ", "suite": "determ", "quick": ["--count", 1500], "thorough": ["--count", 20000]}],
             "cross_process": {"quick": [1500, 3], "thorough": [6000, 8]},
             "assumptions": ["determinism across processes is OBSERVED (byte-identical transcripts of separate OS processes with different SipHash keys), not proved; the theorems show that every hash-ordered collection on the solving path is consumed by an order-blind operation (sort after collect, commuting removals, keyed access) and that the model's search is a function of its inputs",
